@@ -1,1 +1,12 @@
-
+import SphericalVerif.Props.C09
+import SphericalVerif.Props.HKernel
+#print axioms C09.objd_pure
+#print axioms C09.objD_pure
+#print axioms C09.objY_pure
+#print axioms C09.objEvalH_pure
+#print axioms C09.objRotH_pure
+#print axioms C09.op_out_pure
+#print axioms C09.history_indep
+#print axioms C09.history_indep_all
+#print axioms HKernel.runH_pure
+#print axioms HKernel.runH_size_indep
